@@ -1,17 +1,20 @@
-"""Shared machinery of C10/C11/C13 (and pieces of C12): decomposition-rule instance enumeration and evaluation.
+"""Shared machinery of C10/C11/C13 (and the circuit comparison of C12): decomposition-rule instances and their evaluation.
 
-* `registry_keys()`            the decomposition registry, read at run time
-* `instance_exprs(key, tier)`  operator instances for a registry key as *python expression strings* (the replay
-                               artefact is readable: ``qp.CRX(A[0], wires=[0, 1])``); generic recipe for
-                               fixed-arity gates, hand-written recipes for templates, symbolic wrappers
-                               (Adjoint/Pow/C) generated from the base recipes
-* `build(expr)`                expression -> live operator (pure function of the string)
-* `rules_for(op)`              every rule the graph system would consider for `op` (registry rules + generic symbolic
-                               rules), by name
-* `emit(op, rule)`             record the rule, return the queue
-* `layout(op, queue)`          wire order: op.wires + user supplied work wires + dynamically allocated wires
-* `reference(op)`              what the rule has to implement (matrix / prepared state / restricted domain)
-* `enumerate_cases(tier)`      complete list of (key, expr, rule) specs + coverage bookkeeping
+* `registry_keys()`               the decomposition registry, read at run time
+* `instance_exprs(key, tier)`     operator instances for a registry key as *python expression strings* (the replay artefact is
+                                  readable: ``qp.CRX(A[0], wires=[0, 1])``): generic recipe for fixed-arity gates, hand-written
+                                  recipes (HAND) for templates, symbolic wrappers (Adjoint/Pow/C) generated from the base recipes;
+                                  ``CAT:<json>`` expressions are instances of the shared catalogue mc/x_catalog.py (optional source)
+* `build(expr)` / `instance(expr)` expression -> live operator (pure function of the string) / + its rules (per-process cache)
+* `rules_for(op)`                 every rule the graph system considers for `op` (registered + generic symbolic rules), by name
+* `emit(op, rule)`                record the rule, return the queue
+* `Layout(op, queue)`             wire bookkeeping: op.wires + user supplied work wires + dynamically allocated wires, peak allocations
+* `reference_columns(op, zero)`   what a rule has to implement: SEMANTIC reference written from the documentation (arithmetic, QFT,
+                                  Select, QROM, ...), the operator's matrix (closed forms of mc.refgates where available), the
+                                  prepared state, or - weakest - the operator's own legacy decomposition
+* `verify_unitary / verify_branches / verify_circuit`  the oracles of C10 / C13 / C12
+* `enumerate_cases(tier)`         complete list of {"key", "expr", "rule"} specs + coverage bookkeeping (uncovered keys, rules never
+                                  listed, unbuildable recipes)
 
 No randomness anywhere: every parameter comes from the fixed tables below.
 """
@@ -155,6 +158,12 @@ def build(expr):
     import pennylane as qp
 
     with qp.queuing.QueuingManager.stop_recording():
+        if expr.startswith("CAT:"):  # instance of the shared operator catalogue (mc/x_catalog.py), JSON spec after the prefix
+            import json
+
+            from mc import x_catalog
+
+            return x_catalog.build(json.loads(expr[4:]))
         return eval(expr, dict(_NS))  # noqa: S307 - expressions come from the tables in this file only
 
 
@@ -1635,6 +1644,46 @@ def enumerate_cases(tier):
                 seen.add(k)
                 cases.append(spec)
                 rules_seen.setdefault(name, set()).add(rname)
+    # optional extra source: the shared operator catalogue, if it is importable
+    cat_info = {"used": False}
+    try:
+        import json
+
+        from mc import x_catalog
+
+        cat_names = set(x_catalog.names())
+        n_cat, cat_fail = 0, []
+        for key in keys:
+            if key not in cat_names:
+                continue
+            try:
+                specs = x_catalog.instances(key, "few" if tier == "quick" else "quick")
+            except Exception as x:  # noqa: BLE001
+                cat_fail.append([key, f"{type(x).__name__}: {x}"[:100]])
+                continue
+            for sp in specs[: 4 if tier == "quick" else 24]:
+                e = "CAT:" + json.dumps(sp, sort_keys=True)
+                try:
+                    op = build(e)
+                    if len(op.wires) + len(_own_work_wires(op)) > 10:
+                        continue
+                    name = op_name(op)
+                    rl = rules_for(op)
+                except Exception as x:  # noqa: BLE001
+                    cat_fail.append([key, f"{type(x).__name__}: {x}"[:100]])
+                    continue
+                if not rl:
+                    continue
+                n_cat += 1
+                key_hit[name] = key_hit.get(name, 0) + 1
+                for rname, _r in rl:
+                    if (e, rname) not in seen:
+                        seen.add((e, rname))
+                        cases.append({"key": name, "expr": e, "rule": rname})
+                        rules_seen.setdefault(name, set()).add(rname)
+        cat_info = {"used": True, "instances": n_cat, "failures": cat_fail[:10]}
+    except ImportError as x:
+        cat_info = {"used": False, "reason": str(x)[:100]}
     reg_rules = {k: [r.name for r in v] for k, v in reg.items() if len(v)}
     missing_rules = {k: [r for r in v if r not in rules_seen.get(k, ())] for k, v in reg_rules.items()}
     missing_rules = {k: v for k, v in missing_rules.items() if v}
@@ -1652,6 +1701,7 @@ def enumerate_cases(tier):
         "unbuildable_recipes": unbuildable[:20],
         "instances_without_rules": norules[:20],
         "rule_listing_crashes": sorted(set(LISTING_CRASHES)),
+        "shared_catalogue": cat_info,
     }
     _CASES[tier] = (cases, cov)
     return cases, cov
